@@ -23,8 +23,10 @@ P = {
          "sweep, field splices and structured alterations on the crate",
          "unforgeability of the MAC for altered transcripts is not a theorem (not a collision statement)"),
  "C05": ("theorems: injectivity of the transcript / AAD / Finalize input / OPRF-key info encodings for all lengths < 2^16, refusal above, default-identity "
-         "spelling; triples battery incl. boundary-shifted splits; cross-check of every client finish",
-         "the end-to-end binding theorem is given for server key + sealed identities (C06_envelope_binds) up to an exhibited HMAC collision"),
+         "spelling; end to end: an accepted login agrees on context and effective identities with the honest server session whose MAC it carries, and a login "
+         "under another password or another credential identifier is never accepted - each up to exhibited collisions; triples battery incl. boundary-shifted "
+         "splits, one field over-long at one site, digest-related identifiers; cross-check of every client finish",
+         "the credential-identifier theorem additionally assumes the scalar action free on valid elements (proved for the toy suite); sealed identities: C06_envelope_binds"),
  "C06": ("theorems: reported key = setup key; envelope binds server key and identities, substituted static key => InvalidLogin or an exhibited HMAC collision "
          "(restated at each of the 20 suites under CurveLaws alone); battery incl. stolen files whose binding tag is altered in one byte or in all bytes but one",
          "CurveLaws is a hypothesis for the concrete curves"),
@@ -95,7 +97,7 @@ m = {
  ],
  "checks": checks,
  "not_applicable": [],
- "notes": "Three genuine defects were repaired in /repo by 'fix:' commits (known_findings.json). seeded/ holds 76 confirmed property-breaking changes (two rounds of independent agents working from the property text alone) used to test the checks, and one behaviour-preserving rewrite (DESIGN.md appendix E). The code under test is built twice (overflow checks + debug assertions on / plain release) and both builds must behave as the model."
+ "notes": "Three genuine defects were repaired in /repo by 'fix:' commits (known_findings.json). seeded/ holds 114 confirmed property-breaking changes (three rounds of independent agents working from the property text alone) used to test the checks, and one behaviour-preserving rewrite (DESIGN.md appendix E). The code under test is built twice (overflow checks + debug assertions on / plain release) and both builds must behave as the model."
 }
 json.dump(m, open(os.path.join(V, "MANIFEST.json"), "w"), indent=1)
 print("wrote MANIFEST.json with", len(checks), "checks")
